@@ -795,6 +795,9 @@ class Maps:
                 ex.use('axiom:dict[k] returns the stored value and raises KeyError for an absent key')
                 ex.raise_if(st, Not(pd.dom(k)), 'KeyError')
                 return V(pd.get(k))
+            if mname == '__or__' and len(args) == 1 and args[0].kind == 'pdict':
+                ex.use('axiom:dict | other is a new plain dict {**d, **other}')
+                return self.mk_dict(pd.updated(args[0].pd))
             if mname == 'copy' and not args:
                 return self.mk_dict(pd, cls=recv.cls, tag=recv.tag)
         return NotImplemented
